@@ -45,8 +45,11 @@ pub struct EliasFano {
     /// Number of elements.
     n: usize,
 
-    /// Maximum value (universe upper bound).
+    /// Exclusive upper bound of the values (saturates at `u64::MAX`).
     universe: u64,
+
+    /// Largest value (0 when empty).
+    max_value: u64,
 
     /// Number of lower bits per element.
     lower_bits: usize,
@@ -70,6 +73,7 @@ impl EliasFano {
             return Self {
                 n: 0,
                 universe: 0,
+                max_value: 0,
                 lower_bits: 0,
                 lower: BitVector::new(),
                 upper: SuccinctBitVector::default(),
@@ -89,13 +93,17 @@ impl EliasFano {
         }
 
         let n = values.len();
-        let universe = values[n - 1] + 1; // Exclusive upper bound
+        let max_value = values[n - 1];
+        let universe = max_value.saturating_add(1); // Exclusive upper bound
+        // The universe size itself can be 2^64, so it is computed in u128.
+        let universe_size = u128::from(max_value) + 1;
 
-        // Compute optimal split: lower_bits = max(0, floor(log2(u/n)))
-        let lower_bits = if universe <= n as u64 {
+        // Compute optimal split: lower_bits = max(0, floor(log2(u/n))).
+        // At least one bit stays in the upper part, so every shift below is by less than 64.
+        let lower_bits = if universe_size <= n as u128 {
             0
         } else {
-            (64 - (universe / n as u64).leading_zeros()) as usize
+            ((128 - (universe_size / n as u128).leading_zeros()) as usize).min(63)
         };
 
         let lower_mask = if lower_bits == 0 {
@@ -135,6 +143,7 @@ impl EliasFano {
         Self {
             n,
             universe,
+            max_value,
             lower_bits,
             lower,
             upper,
@@ -153,7 +162,7 @@ impl EliasFano {
         self.n == 0
     }
 
-    /// Returns the universe size (exclusive upper bound).
+    /// Returns the universe size (exclusive upper bound, `u64::MAX` if the sequence holds `u64::MAX`).
     #[must_use]
     pub fn universe(&self) -> u64 {
         self.universe
@@ -210,7 +219,7 @@ impl EliasFano {
     /// O(log n) using binary search.
     #[must_use]
     pub fn contains(&self, value: u64) -> bool {
-        if self.is_empty() || value >= self.universe {
+        if self.is_empty() || value > self.max_value {
             return false;
         }
 
@@ -320,6 +329,25 @@ impl EliasFano {
 #[cfg(test)]
 mod tests {
     use super::*;
+
+    #[test]
+    fn test_extreme_values() {
+        for value in [(1u64 << 63) - 1, 1 << 63, u64::MAX - 1, u64::MAX] {
+            let ef = EliasFano::new(&[value]);
+            assert_eq!(ef.get(0), value);
+            assert!(ef.contains(value));
+            assert!(!ef.contains(value - 1));
+            assert_eq!(ef.predecessor(u64::MAX), Some(0));
+            assert_eq!(ef.successor(0), Some(0));
+        }
+
+        let values = vec![0, (1u64 << 63) - 1, 1 << 63, u64::MAX - 1, u64::MAX];
+        let ef = EliasFano::new(&values);
+        let decoded: Vec<u64> = ef.iter().collect();
+        assert_eq!(decoded, values);
+        assert!(ef.contains(u64::MAX));
+        assert!(!ef.contains(u64::MAX - 2));
+    }
 
     #[test]
     fn test_dense_cluster_then_gap() {
